@@ -1,5 +1,6 @@
 """U-NUMARMS: the two numeric arms of typer::check::Typer::check_expr (negation, arithmetic) as fragments."""
 import re
+from units.common import arm_guard
 from vlib.gen import Unit, Fn, Adt, Raw
 
 C = "crates/compiler/src/typer/check.rs"
@@ -20,6 +21,8 @@ UNIT = Unit(
              "checked sub-expressions); the guards of the arms (is_numeric_ty, the operator set) are not part of the fragments",
              "what check_expr does for a literal (parse_integer_literal_with_ty: U-INTLIT) is not re-proved here"],
     items=[
+        arm_guard("crates/compiler/src/typer/check.rs", "check_expr", "Typer", r"let expr_tast = match expr \{",
+                  ['hir::Expr::EUnary if ..', 'hir::Expr::EBinary if ..', 'hir::Expr::EClosure', 'hir::Expr::ELet', 'hir::Expr::EBlock', 'hir::Expr::ETuple if ..', 'hir::Expr::EIf', 'hir::Expr::EMatch', '_']),
         Adt(file=T, kw="enum", name="Ty", rules=["attrs"]),
         Adt(file=T, kw="struct", name="TastIdent", rules=["attrs"]),
         Adt(file=T, kw="enum", name="UnaryResolution", rules=["attrs"]),
